@@ -286,3 +286,61 @@ Proof.
       apply Hp. match goal with H : upd _ _ _ _ = a_obs s' |- _ => rewrite <- H end. reflexivity.
 Qed.
 End Abs2.
+
+Section Abs3.
+Context {V : Type}.
+Variable veq : V -> V -> bool.
+Variable heq : V -> V -> bool.
+Variable vdefault : V.
+Notation fut := (@fut V).
+Notation astate := (astate V).
+Notation acall := (acall V).
+
+(* subscribe(): one more subscriber slot, which has seen the current version *)
+Lemma pinv_subs_app (o : obs V) fr Q (F : list fut) G :
+  PInv o fr Q F G -> PInv (with_subs o (subs o ++ [Some (ver o)])) fr Q F G.
+Proof.
+  intros [Ho Hv Hs Hfu Hnd Hqq Hqt Hwk Hun Hgl Hg Hc Hup].
+  constructor; auto; cbn [with_subs owners ver subs wakers].
+  - intros j x Hj. apply nth_error_snoc in Hj. destruct Hj as [[_ Hj]|[_ Hj]]; [eauto|].
+    subst. eauto.
+  - intros j fj Hj. destruct (Hfu _ _ Hj) as (A & B & C). unfold fut_ok.
+    cbn [with_subs owners ver subs wakers]. rewrite app_length. cbn [length]. split; [|split]; auto.
+    + intros k Hk Hp. specialize (A k Hk Hp). lia.
+    + destruct (f_phase fj); auto. destruct C as (C1 & k' & C2 & C3). split; auto.
+      exists k'. split; auto. apply nth_error_app_l. auto.
+Qed.
+
+Lemma in_p2_bound (o : obs V) fr Q (F : list fut) G k :
+  PInv o fr Q F G -> in_p2 F k = true -> k < length (subs o).
+Proof.
+  intros HI H. apply in_p2_true in H. destruct H as (id & f & Hf & Hk).
+  apply p2key_sub in Hk. destruct Hk as [Hk Hp].
+  destruct (pi_fut _ _ _ _ _ HI _ _ Hf) as (A & _). auto.
+Qed.
+
+Lemma abs_subscribe (s s' : astate) :
+  owners (a_obs s) = 1 ->
+  a_obs s' = with_subs (a_obs s) (subs (a_obs s) ++ [Some (ver (a_obs s))]) ->
+  (forall k, in_p2 (a_futs s') k = in_p2 (a_futs s) k) ->
+  in_p2 (a_futs s) (length (subs (a_obs s))) = false ->
+  sstep veq heq vdefault (abs s) WSubscribe = Some (abs s', OSubId (length (subs (a_obs s)))).
+Proof.
+  intros Ho E Hp Hn. unfold sstep.
+  assert (Hown : (s_owners (abs s) =? 0) = false) by (cbn; rewrite Ho; reflexivity).
+  rewrite Hown. rewrite !abs_unfold. cbn [s_unseen s_cur]. rewrite unseen_length.
+  unfold s_with. cbn [s_cur s_kind s_owners s_weaks s_unseen]. rewrite E. cbn [with_subs val okind owners weaks].
+  f_equal. f_equal. f_equal.
+  apply nth_error_ext. intro j. rewrite nth_unseen. cbn [with_subs ver subs].
+  set (U := unseen_of (a_obs s) (in_p2 (a_futs s))).
+  assert (HU : length U = length (subs (a_obs s))) by apply unseen_length.
+  destruct (Nat.lt_trichotomy j (length (subs (a_obs s)))) as [Hlt|[Heq|Hgt]].
+  - rewrite !nth_error_app1 by lia. unfold U. rewrite nth_unseen, Hp. reflexivity.
+  - subst j. rewrite nth_error_snoc_eq.
+    replace (nth_error (U ++ [Some false]) (length (subs (a_obs s)))) with (Some (Some false))
+      by (rewrite <- HU, nth_error_snoc_eq; reflexivity).
+    cbn [option_map]. rewrite Hp, Hn, Nat.ltb_irrefl. reflexivity.
+  - rewrite !nth_error_app2 by lia. rewrite HU.
+    destruct (j - length (subs (a_obs s))) eqn:Ej; [lia|]. cbn. destruct n; reflexivity.
+Qed.
+End Abs3.
